@@ -13,5 +13,15 @@ for d in seeded/*${pat}*/; do
   if ! git -C "$w" apply "/verif/$d/patch.diff"; then echo "SEED $id: patch does not apply"; git -C /repo worktree remove --force "$w"; continue; fi
   out=$(bin/bfvc check --property $prop --repo "$w" --evidence-dir "$w/.evidence" 2>&1); rc=$?
   git -C /repo worktree remove --force "$w"
+  python3 - "$d/meta.json" "$rc" "$prop" "$(echo "$out" | grep -m1 '^FAILED-OBLIGATION' | cut -c19-200)" <<'PY'
+import json,sys
+p,rc,prop,ob=sys.argv[1:5]
+m=json.load(open(p))
+m["caught_by_checks_now"]=[prop] if rc=="1" else []
+m["first_failed_obligation_now"]=ob.strip()
+if rc=="1" and not m.get("caught_by_checks"):
+    m["caught_after_strengthening"]=True
+json.dump(m,open(p,"w"),indent=1)
+PY
   if [ $rc -eq 1 ]; then echo "SEED $id ($prop): caught (recorded: ${want:-none}): $(echo "$out" | grep -m1 '^FAILED-OBLIGATION' | cut -c1-140)"; else echo "SEED $id ($prop): not caught rc=$rc (recorded: ${want:-none})"; fi
 done
